@@ -13,14 +13,16 @@ Two kinds of statements.
     operation, from which "exactly one place" can be read off: every object of the old list and
     of the arguments is afterwards in exactly one of: the new list, the return value, the drop
     events of the step (once), or — only for `forget` — leaked.
-The global ledger over histories (a multiset equation over all registers, the caller's holdings,
-the drop log and the leak list) is NOT proved as one theorem; `C02_ledger_full` states it and
-the evidence lists it under `stated_not_proved`.
+(3) The ledger over histories — passed in = stored ⊎ handed back ⊎ destroyed, as a multiset
+    equation — is proved for the owning dictionary operations (`history_ledger`).  For the whole
+    operation language (entry API, iterators with `forget`, clone, bulk construction, set algebra,
+    faults) it is stated as `C02_ledger_full` and NOT proved as one theorem; there (1) and (2) apply.
 -/
 import Micromap.Proofs.SysInv
 import Micromap.Props.C03
 import Micromap.Props.C10
 import Micromap.Props.C12
+import Micromap.Proofs.Ledger
 
 namespace Micromap.Props.C02
 open Micromap SetAlg Dict Refine
@@ -171,7 +173,44 @@ theorem forget_leaks_never_drops (s : St K V Q) :
       s'.w.events = s.w.events ∧ s'.w.leaked = s.w.leaked ++ liveObjs s.r s.r.cap :=
   ⟨_, rfl, rfl, rfl, rfl⟩
 
-/-- The full-strength ledger statement (not proved as one theorem): after every history the
+/-! ### (3) the ledger over histories of the owning dictionary operations -/
+
+/-- **Every object is in exactly one place, over any history.**  For any sequence of the owning
+    operations `insert`, `insert_key_value`, `checked_insert`, `remove`, `remove_entry`, `clear`,
+    `drain` (partially consumed, then dropped) and lookups, from `new()` of any capacity, in a benign
+    world with a time-independent `==` and a value type with drop glue: the history runs without
+    `ub`, and for EVERY weighting `w` of objects
+
+        Σ w(objects passed in) = Σ w(objects stored at the end) + Σ w(objects handed back) + Σ w(objects dropped)
+
+    — the multiset equation "passed in = stored ⊎ handed back ⊎ destroyed".  With `w` the indicator
+    of one object: an object passed in once is, at the end, in exactly one of the three places
+    and was destroyed at most once; nothing is ever destroyed that was not passed in.
+    (Steps that end in the overflow panic are included: there both arguments are dropped.) -/
+theorem history_ledger (hE : E.Pure) (hv : E.vGlue = true) (cap : Nat) (w0 : World K V Q) (hb : Benign w0)
+    (ops : List (Ledger.LOp K V Q)) (w : Obj K V → Nat) :
+    ∃ sf back tr lf, Ledger.lmhist E ops ⟨Raw.new cap, w0⟩ = some (sf, back) ∧ Rep sf.r lf ∧
+      WRel w0 sf.w tr ∧
+      Ledger.wsum w (ops.flatMap Ledger.LOp.inObjs) =
+        Ledger.wpairs w lf + Ledger.wsum w back + Ledger.wsum w (Ledger.droppedOf tr) := by
+  obtain ⟨sf, h1, h2, _, h4⟩ := Ledger.lmhist_refines E hE ops ⟨Raw.new cap, w0⟩ [] (Rep.new cap) hb
+  refine ⟨sf, _, _, _, h1, h2, h4, ?_⟩
+  have := Ledger.lhist_conserves E hv w (Raw.new cap : Raw K V).cap ops []
+  rw [Ledger.lhist_in] at this
+  simpa using this
+
+/-- the step-level fact behind it (list level, any list): stored + passed in = stored' + handed
+    back + dropped, for each owning operation. -/
+theorem step_ledger (hv : E.vGlue = true) (w : Obj K V → Nat) (cap : Nat) (l : List (K × V))
+    (op : Ledger.LOp K V Q) :
+    match Ledger.lstep E cap l op with
+    | .ok l' back tr => Ledger.wpairs w l + Ledger.wsum w op.inObjs =
+        Ledger.wpairs w l' + Ledger.wsum w back + Ledger.wsum w (Ledger.droppedOf tr)
+    | .overflow tr => Ledger.wsum w op.inObjs = Ledger.wsum w (Ledger.droppedOf tr) :=
+  Ledger.lstep_conserves E hv w cap l op (fun _ _ hf => Ledger.findKey_lt E hf)
+
+/-- The full-strength ledger statement over the WHOLE operation language (not proved as one theorem;
+    `history_ledger` above proves it for the owning dictionary operations): after every history the
     objects created so far are, as a multiset, exactly those stored in live slots of the
     registers, those handed to the caller, those in the drop log (each once), and those leaked. -/
 def C02_ledger_full : Prop :=
